@@ -21,12 +21,18 @@ import (
 	"strings"
 )
 
+type multi []string
+
+func (m *multi) String() string     { return strings.Join(*m, ",") }
+func (m *multi) Set(v string) error { *m = append(*m, v); return nil }
+
 func die(f string, a ...any) { fmt.Fprintf(os.Stderr, "xform: "+f+"\n", a...); os.Exit(2) }
 
 func main() {
 	repo := flag.String("repo", "/repo", "repository root")
 	out := flag.String("out", "", "output directory for rewritten files + overlay.json")
-	hooks := flag.String("hooks", "", "hooks directory (mirrors repo package layout)")
+	var hookDirs multi
+	flag.Var(&hookDirs, "hooks", "hooks directory (mirrors repo package layout); may be repeated")
 	timePkgs := flag.String("time", "", "comma separated package dirs whose time/math-rand imports are redirected")
 	syncPkgs := flag.String("sync", "", "comma separated package dirs whose sync, sync/atomic imports and go statements are redirected")
 	consts := flag.String("const", "", "comma separated dir:Name=value constant overrides (scaled models)")
@@ -154,12 +160,13 @@ func main() {
 			}
 		}
 	}
-	if *hooks != "" {
-		filepath.Walk(*hooks, func(p string, info os.FileInfo, err error) error {
+	for _, hd := range hookDirs {
+		hd := hd
+		filepath.Walk(hd, func(p string, info os.FileInfo, err error) error {
 			if err != nil || info.IsDir() || !strings.HasSuffix(p, ".go") {
 				return nil
 			}
-			rel, _ := filepath.Rel(*hooks, p)
+			rel, _ := filepath.Rel(hd, p)
 			overlay[filepath.Join(*repo, rel)] = p
 			return nil
 		})
